@@ -211,7 +211,12 @@ func (fs *realFS) ReadFile(path string) (contents string, canonicalError error, 
 		fs.watchMutex.Lock()
 		data, ok := fs.watchData[path]
 		if canonicalError != nil {
-			data.state = stateFileMissing
+			// Note: If "ReadDirectory" was called before "ReadFile" with this same
+			// path and succeeded, then this is a directory and reading it as a file
+			// has failed. Keep watching the entries of the directory in that case.
+			if !ok || data.state != stateDirHasAccessedEntries {
+				data.state = stateFileMissing
+			}
 		} else if !ok || data.state == stateDirUnreadable {
 			// Note: If "ReadDirectory" is called before "ReadFile" with this same
 			// path, then "data.state" will be "stateDirUnreadable". In that case
